@@ -252,7 +252,7 @@ def run(ctx):
 
         def opts_fn(i, r):
             return jsgen.Opts(clean=(i % 3 != 0), max_stmts=5, unicode_idents=(i % 4 == 1), string_continuations=(i % 2 == 0))
-        progs = work.Programs(ctx, nprog, opts_fn=opts_fn, use_corpus=False, layouts=('space',))
+        progs = work.Programs(ctx, nprog, opts_fn=opts_fn, use_corpus=False, layouts=('space',), long_every=0)
         for text, meta in progs:
             toks = meta['toks']
             for sub, seps, vtext in variants_of_tokens(toks, rng, max_subsets):
